@@ -68,7 +68,7 @@ Inductive log := L (nstr : Z) (evs : list ev) (qpos fin : Z).
 (* what one caller of the public API observed: its request number (carried to exec in the context and
    recorded with vcAlloc), its outcome class (0 ok, 1 error frame, 2 timeout, 3 context, 4 connection closed,
    5 no streams, 6 no connection, 7 body read error, 8 write/connection error, 9 other, 10 rows without the
-   row), and the request number found inside the response it was handed (-1: none) *)
+   row, 11 response refused for its protocol version), and the request number found inside the response it was handed (-1: none) *)
 Inductive result := R (tok cl seen : Z).
 
 (* one history: the logs of all connections of one session, and what every caller got *)
@@ -259,7 +259,7 @@ Definition memz (x : Z) (l : list Z) : bool := existsb (Z.eqb x) l.
 (* the outcome the model reached for a call, against the class the caller of the public API observed *)
 Definition class_ok (o : outcome) (cl : Z) : bool :=
   match o with
-  | OResp (RTok _) => memz cl [0; 1; 10]
+  | OResp (RTok _) => memz cl [0; 1; 10; 11]   (* 11: exec refused the frame: header of another protocol version *)
   | OResp (RBodyErr _) => memz cl [7; 8; 9]
   | OResp RCloseErr => memz cl [4; 7; 8; 9]
   | OTimeout => cl =? 2
